@@ -52,6 +52,7 @@ import Sds.Proofs.Writer
 import Sds.Proofs.Codec2
 import Sds.Proofs.LoadWF
 import Sds.Generated.SerConsts
+import Sds.Proofs.SerShapes
 
 namespace Sds.C14
 open Sds Outcome
@@ -519,5 +520,19 @@ example : ∀ m : Mode, (do let b ← RL.runBCalls m [.setLen 10, .set 10 5] {}
                             decide ((rlC m).load (ofBytes ((toBytes ((rlC m).ser v)).take k)) =
                               fault (.err .eof)))) = ok (96, true) := by
   intro m; cases m <;> decide +kernel
+
+/-! **`serialize` is a `?`-joined sequence of `write_all` calls — checked on the source of this run.**  The sink theorem
+`serialize_into_failing_sink` assumes that the implementation emits its bytes through `write_all` calls whose errors are
+all propagated.  `Generated/SerShape.lean` lists every statement of every `serialize_header` / `serialize_body` of the
+library (tools/ser_shape.py); a statement that is anything but `x.serialize(writer)?`, `writer.write_all(..)?`, a pure
+`let`, or one of the three recognised wrappers (`if let Some`, `for … in self.f.iter()`, a guarded padding write) is
+extracted as `SerStep.other`, and this obligation then fails: a `write` in place of `write_all`, a result dropped with
+`let _ =` or `.ok()`, a `?` removed, an early `return Ok(())`. -/
+theorem every_serializer_is_a_q_joined_write_sequence :
+    Generated.allSerShapes.all SerShape.qJoined = true ∧ Generated.allSerShapes.length = 14 :=
+  ⟨SerShapes.all_q_joined, rfl⟩
+
+/-- the obligation is not vacuous: a shape with a discarded result is rejected -/
+example : SerShape.qJoined ⟨"X", [], [.field "len", .other "let _ = self.data.serialize(writer)"], [], []⟩ = false := rfl
 
 end Sds.C14
